@@ -459,6 +459,8 @@ class ExactTable(object):
     def __init__(self):
         self.T = {}      # (k, j) -> Fraction
         self.W = {}      # (k, j) -> float (same recurrence evaluated in doubles)
+        self.E = {}      # (k, j) -> first-order bound on the rounding error of ANY reasonable double
+        #                  evaluation of the entry (a few ulps per operation, propagated)
         self.n = -1
         self.defined = True
         self.min_margin = float('inf')
@@ -470,9 +472,11 @@ class ExactTable(object):
         n = self.n
         if not self.defined:
             return None
-        T, W = self.T, self.W
+        T, W, E = self.T, self.W, self.E
+        u = 8.0 * EPS
         T[(0, n)] = Fraction(s)
         W[(0, n)] = float(s)
+        E[(0, n)] = 0.0
         for k in range(1, n + 1):
             j = n - k
             a, b = T[(k - 1, j + 1)], T[(k - 1, j)]
@@ -490,7 +494,13 @@ class ExactTable(object):
             wbelow = W[(k - 2, j + 1)] if k >= 2 else 0.0
             T[(k, j)] = below + 1 / d
             W[(k, j)] = wbelow + 1.0 / wd
+            fd = abs(float(d))
+            finv = 1.0 / fd if fd > 0.0 else float('inf')
+            e_d = E[(k - 1, j + 1)] + E[(k - 1, j)] + u * fd
+            e_below = E[(k - 2, j + 1)] if k >= 2 else 0.0
+            E[(k, j)] = e_below + e_d * finv * finv + u * (abs(float(below)) + finv)
         k = 2 * (n // 2)
+        self.last_bound = E[(k, n - k)]
         return T[(k, n - k)], W[(k, n - k)]
 
 
@@ -524,10 +534,15 @@ def check_epsalg(terms, recs):
         ex = float(exact)
         scale = max(abs(ex), 5e-324)
         werr = abs(Fraction(w) - exact)
+        bound = tab.last_bound
         if float(werr) > 1e-6 * scale:
             cnt['eps_skipped_cond'] += 1
             continue
-        tol = max(1e3 * float(werr), 64 * EPS * scale)
+        if not bound <= 1e-6 * scale:
+            cnt['eps_checked_weakly'] = cnt.get('eps_checked_weakly', 0) + 1   # only gross slips show
+        # tolerance: what a correct double evaluation may be off by - measured on the witness,
+        # and bounded a priori so that a differently rounded (but correct) formula is accepted too
+        tol = max(1e3 * float(werr), 64 * EPS * scale, 8.0 * bound)
         cnt['eps_checked'] += 1
         if k >= 25:
             cnt['eps_checked_beyond_25'] += 1
@@ -814,6 +829,7 @@ def evidence(tier, seed, by_mode, det, n_viol, known_hits, errors, wall):
             'limexp_values_seen': sorted(s.get('limexp_seen', set())),
             'epsalg_exact_checks': s.get('eps_checked', 0),
             'epsalg_exact_checks_beyond_25_terms': s.get('eps_checked_beyond_25', 0),
+            'epsalg_exact_checks_with_tolerance_above_1e-6_relative': s.get('eps_checked_weakly', 0),
             'epsalg_longest_prefix_checked_exactly': s.get('max_eps_checked_k', 0) + 1,
             'epsalg_skipped_vanishing_margin': s.get('eps_skipped_margin', 0),
             'epsalg_skipped_ill_conditioned': s.get('eps_skipped_cond', 0),
